@@ -787,7 +787,7 @@ def arctan(x):
     if ent is None:
         half = Fraction(1, 2)
         for (av, w) in (list(CTX.wangles) if CTX.arctan_hints else []):
-            for k in (0, -1, 1, -2, 2):
+            for k in (0, -1, 1, -2, 2, -3, 3):
                 # candidate b = a + k*pi/2 ; tan b = tan a (k even) or -cot a (k odd)
                 A = S(av)
                 si, co, W = A._sincos()
